@@ -6,6 +6,8 @@ EXTENDS TxNotifier
 Incl1 == {<<0>>, <<1>>, <<2>>}
 \* two outpoints, both with two conflicting spenders
 Incl2 == {<<a, b>> : a \in 0..2, b \in 0..2}
+\* two outpoints with one spender each: the independent transactions 1 and 3
+Incl4 == {<<a, b>> : a \in 0..1, b \in 0..1}
 \* two outpoints; the second has one spender only (3 transactions, one conflicting pair)
 Incl3 == {<<a, b>> : a \in 0..2, b \in 0..1}
 =============================================================================
